@@ -4,6 +4,8 @@ import Ogorek.Conv
 import Ogorek.Opcodes
 import Ogorek.Reflect
 import Ogorek.Pvm
+import Ogorek.CPickle
+import Ogorek.CPickleOK
 import Ogorek.Generated.IsPrint
 
 /-!
@@ -285,6 +287,22 @@ partial def parseRFields : List String â†’ List (Bytes Ã— Bool Ã— Option Bytes Ã
     | _ => none
 end
 
+/-- A Python object of the basic types, written in the value syntax. -/
+partial def pyObjOfGo : GoVal â†’ Option PyObj
+  | .none => some .none
+  | .bool b => some (.bool b)
+  | .int i => some (.int i)
+  | .big _ i => some (.int i)
+  | .float f => some (.float f)
+  | .str s => some (.str s)
+  | .bytes s => some (.bytes s)
+  | .bytearray s => some (.bytearray s)
+  | .tuple xs => (xs.mapM pyObjOfGo).map .tuple
+  | .list xs => (xs.mapM pyObjOfGo).map .list
+  | .dict kvs => (kvs.mapM fun (k, v) => do pure ((â† pyObjOfGo k), (â† pyObjOfGo v))).map .dict
+  | .map kvs => (kvs.mapM fun (k, v) => do pure ((â† pyObjOfGo k), (â† pyObjOfGo v))).map .dict
+  | _ => none
+
 def handle (line : String) : String :=
   match (line.splitOn " ").filter (Â· â‰  "") with
   | ["dec", cfg, hook, hex] =>
@@ -334,6 +352,19 @@ def handle (line : String) : String :=
       let f := withFault k (encodeTop ip { proto := p, su := su == "1" } g v)
       s!"{f.writes} {if f.injected then 1 else 0} {match f.err with | some e => e.render | none => "-"}"
     | _, _, _, _ => "BADCASE"
+  | "cpk" :: framed :: proto :: toks =>      -- the model of CPython's pickler; then, per decoder mode, whether `pkOKb` holds
+    match proto.toNat?, (parseValue? toks).bind pyObjOfGo with
+    | some p, some v =>
+      match (if framed == "1" then cpDumpsFramed p v else cpDumps p v) with
+      | some bs =>
+        let flag (pd : Bool) : String := if pkOKb { pyDict := pd, su := false } v then "1" else "0"
+        "OK " ++ hexOfBytes bs ++ " " ++ flag false ++ flag true
+      | none => "UNMODELLED"
+    | _, _ => "BADCASE"
+  | ["dechref", cfg, hook, hex] =>      -- `dech` on the list-by-reference machine (K1 classification)
+    match parseCfg cfg, parseHook hook, bytesOfHex? hex with
+    | some c, some h, some inp => runDecH (refCfg c) h inp
+    | _, _, _ => "BADCASE"
   | ["pvm", hex] =>
     match bytesOfHex? hex with
     | some bs =>
